@@ -282,6 +282,7 @@ func (g *GruleEngine) FetchMatchingRules(dataCtx ast.IDataContext, knowledge *as
 	// Working memory need to be resetted. all Expression will be set as not evaluated.
 	log.Debugf("Resetting Working memory")
 	knowledge.WorkingMemory.ResetAll()
+	knowledge.Reset()
 	// Initialize all AST with datacontext and working memory
 	log.Debugf("Initializing Context")
 	knowledge.InitializeContext(dataCtx)
